@@ -209,7 +209,22 @@ pub fn generate(s: &mut Session, thorough: bool) -> bool {
         let (r, phi, z) = (0.1 + 0.09 * rng.f64_unit(), (2.0 * rng.f64_unit() - 1.0) * PI, (2.0 * rng.f64_unit() - 1.0) * 1.152);
         let sp = point(r, phi, z);
         let (x, y) = (sp.x().get::<meter>(), sp.y().get::<meter>());
-        let kind = (i / 8) % 3;
+        let kind = (i / 8) % 4;
+        if kind == 3 {
+            // exactly axis-aligned: centre on the x axis beyond the point, phase 0, point at phi = 0, so that
+            // the vector to the phase-0 point and the vector to the point are exactly antiparallel (cross
+            // product exactly 0, angle pi): for a circle the closest t is +-pi, not 0 (seed C16-11)
+            p[0] = r + p[3] * (1.0 + 2.0 * rng.f64_unit());
+            p[1] = 0.0;
+            p[4] = 0.0;
+            let (req, imp, why) = run_case(p, (r, 0.0, z), grid);
+            s.push_oracle("degenerate-geometry", req, imp, why);
+            // and exactly parallel (angle 0)
+            p[0] = r - p[3] * (1.0 + 2.0 * rng.f64_unit());
+            let (req, imp, why) = run_case(p, (r, 0.0, z), grid);
+            s.push_oracle("degenerate-geometry", req, imp, why);
+            continue;
+        }
         if kind == 0 {
             // axis through the point
             p[0] = x;
